@@ -89,6 +89,21 @@ Theorem C04_violation_after_conforming_prefix : forall cf app, passive app -> zp
 Proof. exact violation_after_prefix. Qed.
 Print Assumptions C04_violation_after_conforming_prefix.
 
+(* ... and the same for every header-level violation (by C04_header_rules: a reserved bit, a reserved opcode, a fragmented
+   control frame, a control frame announcing more than 125 bytes), the header encoded with any of the three length forms
+   and followed by ANY bytes: the parser judges the header as soon as its length field is complete *)
+Theorem C04_header_violation_after_conforming_prefix : forall cf app, passive app -> zpos (c_ping_timeout cf) = None ->
+  forall fs lfs c open ms open' h lf len rest,
+  idle c open -> data_head open -> Forall plain fs -> forms_ok fs lfs ->
+  ref_messages open fs = Some (ms, open') ->
+  h_mask h = false -> h_op h < 16 -> form_ok lf len = true -> validate_err false h len = true ->
+  let r := feedf cf app c (encode_all fs lfs ++ hdr_bytes h lf len ++ rest) in
+  snd r <> SOk /\
+  msg_events (k_tr (fst r)) = rev (map ev_of ms) ++ msg_events (k_tr c) /\
+  perrors (k_tr (fst r)) = false :: perrors (k_tr c).
+Proof. exact header_violation_after_prefix. Qed.
+Print Assumptions C04_header_violation_after_conforming_prefix.
+
 Example C04_nonvacuous :
   header_violation false {| h_fin := true; h_r1 := false; h_r2 := false; h_r3 := false; h_op := 9; h_mask := false |} 126 /\
   validate_err true {| h_fin := true; h_r1 := true; h_r2 := false; h_r3 := false; h_op := 1; h_mask := false |} 10 = false /\
